@@ -23,19 +23,47 @@ Fixpoint sc_links (prev : block) (chain : list block) : Prop :=
   | b :: r => bnum prev + 1 = bnum b /\ bid prev = bpar b /\ tb b /\ goodish b /\ sc_links b r
   end.
 
-Lemma vasc_loop_links : forall d first chain prev,
-  vasc_loop t d first prev chain = ENone -> Forall tb chain -> sc_links prev chain.
+(* storing a block of a verified chain keeps J, keeps what was stored, and stores the block *)
+Lemma side_store_J : forall b prev s, J s -> tb prev -> tb b -> goodish b ->
+  bnum prev + 1 = bnum b -> bid prev = bpar b ->
+  (alive s -> In (bid prev) (d_hdr (disk_of s))) ->
+  let s' := if has_block (disk_of s) (bid b) then s else write_block b s in
+  J s' /\ (alive s' -> In (bid b) (d_hdr (disk_of s'))) /\
+  (forall h, In h (d_hdr (disk_of s)) -> In h (d_hdr (disk_of s'))) /\ (alive s' -> alive s).
 Proof.
-  induction chain as [|b r IH]; intros prev H Ht; simpl in *; auto.
-  inversion Ht; subst.
-  destruct ((lookback (bnum b) <? first) && _); try discriminate.
-  destruct ((bnum prev + 1 =? bnum b) && (bid prev =? bpar b)) eqn:E1; simpl in H; try discriminate.
-  destruct ((bhv b =? 1) || (bhv b =? 2)) eqn:E2; try discriminate.
-  destruct (bbv b =? 0) eqn:E3; simpl in H; try discriminate.
-  apply andb_true_iff in E1. destruct E1 as [E1 E1']. apply N.eqb_eq in E1, E1'.
-  apply orb_false_iff in E2. destruct E2 as [E2 E2'].
-  repeat split; auto.
-  unfold goodish, good_block. rewrite E2, E2', E3. reflexivity.
+  intros b prev s HJ Hp Hb Hgd L1 L2 Hps s'. unfold s'.
+  destruct (has_block (disk_of s) (bid b)) eqn:Eh.
+  - split; auto. split; [|auto]. intros Ha. destruct HJ as [[_ [Hb0 _]] _]. apply Hb0. apply memN_In; auto.
+  - destruct (J_write_block t g b s HJ Hb) as [A [B [C _]]].
+    + intros Ha. repeat split; auto; try lia.
+      * rewrite <- L2; auto.
+      * exists prev. rewrite <- L2. auto.
+    + split; auto. split; auto. split; auto. unfold write_block. apply wr_alive_back.
+Qed.
+
+(* verifyAllSideChainBlocks' loop: it keeps J and what was stored; when it
+   succeeds the chain is linked, verified, and (if the node is alive) stored *)
+Lemma vasc_loop_J : forall first chain prev s,
+  J s -> tb prev -> Forall tb chain -> (alive s -> In (bid prev) (d_hdr (disk_of s))) ->
+  let r := vasc_loop t s first prev chain in
+  J (fst r) /\ (forall h, In h (d_hdr (disk_of s)) -> In h (d_hdr (disk_of (fst r)))) /\
+  (alive (fst r) -> alive s) /\ (snd r = ENone -> sc_links prev chain).
+Proof.
+  intros first. induction chain as [|b r IH]; intros prev s HJ Hp Ht Hps; cbn [vasc_loop].
+  - cbn [fst snd]. split; [exact HJ|]. split; [auto|]. split; [auto|]. intros _; exact I.
+  - inversion Ht; subst.
+    destruct ((lookback (bnum b) <? first) && _); [cbn [fst snd]; split; [exact HJ|split; [auto|split; [auto|discriminate]]]|].
+    destruct ((bnum prev + 1 =? bnum b) && (bid prev =? bpar b)) eqn:E1; cbn [negb]; [|cbn [fst snd]; split; [exact HJ|split; [auto|split; [auto|discriminate]]]].
+    destruct ((bhv b =? 1) || (bhv b =? 2)) eqn:E2; [cbn [fst snd]; split; [exact HJ|split; [auto|split; [auto|discriminate]]]|].
+    destruct (bbv b =? 0) eqn:E3; cbn [negb]; [|cbn [fst snd]; split; [exact HJ|split; [auto|split; [auto|discriminate]]]].
+    apply andb_true_iff in E1. destruct E1 as [E1 E1']. apply N.eqb_eq in E1, E1'.
+    apply orb_false_iff in E2. destruct E2 as [E2 E2'].
+    assert (Hgd : goodish b) by (unfold goodish, good_block; rewrite E2, E2', E3; reflexivity).
+    destruct (side_store_J b prev s HJ Hp H1 Hgd E1 E1' Hps) as [A [B [C D]]].
+    set (s1 := if has_block (disk_of s) (bid b) then s else write_block b s) in *.
+    destruct (IH b s1 A H1 H2 B) as [I1 [I2 [I3 I4]]].
+    split; [exact I1|]. split; [intros h Hh; apply I2; apply C; auto|]. split; [intros Ha; apply D; apply I3; auto|].
+    intros He. simpl. repeat split; auto.
 Qed.
 
 Lemma side_fold_J : forall chain prev s, J s -> tb prev ->
@@ -44,17 +72,8 @@ Lemma side_fold_J : forall chain prev s, J s -> tb prev ->
 Proof.
   induction chain as [|b r IH]; intros prev s HJ Hp Hps Hl; simpl; auto.
   destruct Hl as [L1 [L2 [L3 [L4 L5]]]].
+  destruct (side_store_J b prev s HJ Hp L3 L4 L1 L2 Hps) as [A [B _]].
   apply (IH b); auto.
-  - destruct (has_block (disk_of s) (bid b)); auto.
-    apply (J_write_block t g); auto. intros Ha. repeat split; auto; try lia.
-    + rewrite <- L2; auto.
-    + exists prev. rewrite <- L2. auto.
-  - destruct (has_block (disk_of s) (bid b)) eqn:Eh.
-    + intros Ha. destruct HJ as [[_ [Hb0 _]] _].
-      apply Hb0. apply memN_In; auto.
-    + apply (J_write_block t g); auto. intros Ha. repeat split; auto; try lia.
-      * rewrite <- L2; auto.
-      * exists prev. rewrite <- L2. auto.
 Qed.
 
 Lemma skip_canonical_incl : forall d chain x, In x (skip_canonical t d chain) -> In x chain.
@@ -81,17 +100,18 @@ Proof.
   assert (Ht' : Forall tb (b0 :: ch)).
   { apply Forall_forall. intros x Hx. rewrite Forall_forall in Ht. apply Ht.
     apply (skip_canonical_incl (disk_of s)). rewrite Esk; auto. }
-  destruct (verify_all_side_chain_blocks t (disk_of s) (b0 :: ch)) eqn:Ev; try exact HJ; try (apply (J_die t g); exact HJ).
-  unfold verify_all_side_chain_blocks in Ev.
-  destruct (parent_block t (disk_of s) b0) as [p|] eqn:Ep; try discriminate.
-  destruct (negb (has_state (disk_of s) (broot p))); try discriminate.
+  unfold verify_all_side_chain_blocks.
+  destruct (parent_block t (disk_of s) b0) as [p|] eqn:Ep; [|exact HJ].
+  destruct (negb (has_state (disk_of s) (broot p))); [exact HJ|].
   destruct (parent_block_spec t _ _ _ Ep) as [P1 [P2 [P3 [P4 P5]]]].
-  assert (Hl : sc_links p (b0 :: ch)) by (eapply vasc_loop_links; eauto).
-  set (s1 := fold_left _ (b0 :: ch) s).
+  assert (Hp : tb p) by (unfold tb; rewrite P5; auto).
+  destruct (vasc_loop_J (bnum b0) (b0 :: ch) p s HJ Hp Ht') as [V1 [V2 [V3 V4]]]; [intros _; rewrite P5; auto|].
+  destruct (vasc_loop t s (bnum b0) p (b0 :: ch)) as [sv ev]. cbn [fst snd] in V1, V2, V3, V4.
+  destruct ev; try exact V1; try (apply (J_die t g); exact V1).
+  assert (Hl : sc_links p (b0 :: ch)) by (apply V4; reflexivity).
+  set (s1 := fold_left _ (b0 :: ch) sv).
   assert (H1 : J s1).
-  { apply (side_fold_J (b0 :: ch) p); auto.
-    - unfold tb. rewrite P5; auto.
-    - intros _. rewrite P5; auto. }
+  { apply (side_fold_J (b0 :: ch) p); auto. intros _. apply V2. rewrite P5; auto. }
   destruct (info t (cur s1)) as [c|]; [|apply (J_die t g); auto].
   destruct (bnum (last (b0 :: ch) (mkB 0 0 0 0 [] 0 0)) <=? bnum c); [exact H1|].
   destruct (collect_side t _ (disk_of s1) _ []) as [[hs anc]|]; [|apply (J_die t g); auto].
